@@ -101,11 +101,19 @@ inductive Item where
 inductive CallKind where | do_ | multi | cache | multiCache
   deriving Repr, DecidableEq
 
-structure Call where
+structure ConnId where
   addr : Bytes
+  serial : Nat
+  deriving Repr, DecidableEq
+
+/-- one call received by a node: over which connection (address + identity), which API, which commands -/
+structure Call where
+  conn : ConnId
   kind : CallKind
   items : List Item
   deriving Repr, DecidableEq
+
+def Call.addr (c : Call) : Bytes := c.conn.addr
 
 structure World where
   /-- pending injections `(node, command id, reply)`: the first match is consumed when the node runs the command -/
@@ -145,10 +153,7 @@ def logCall (w : World) (c : Call) : World := { w with log := w.log ++ [c] }
 
 /-! ## client state -/
 
-structure Conn where
-  addr : Bytes
-  serial : Nat
-  deriving Repr, DecidableEq
+abbrev Conn := ConnId
 
 inductive RMode where
   | plain
@@ -318,13 +323,13 @@ structure St where
 
 /-- one `cc.Do(ctx, cmd)` / `cc.DoCache(ctx, cmd, ttl)` -/
 def sendOne (cache : Bool) (s : St) (cc : Conn) (cmd : Cmd) : Reply × St :=
-  let w1 := logCall s.w { addr := cc.addr, kind := if cache then .cache else .do_, items := [.cmd cmd.id] }
+  let w1 := logCall s.w { conn := cc, kind := if cache then .cache else .do_, items := [.cmd cmd.id] }
   let (r, w2) := answer w1 cc.addr cmd
   (r, { s with w := w2 })
 
 /-- `ncc.DoMulti(ctx, cmds.AskingCmd, cmd)`, result index 1 -/
 def sendAsking (s : St) (cc : Conn) (cmd : Cmd) : Reply × St :=
-  let w1 := logCall s.w { addr := cc.addr, kind := .multi, items := [.asking, .cmd cmd.id] }
+  let w1 := logCall s.w { conn := cc, kind := .multi, items := [.asking, .cmd cmd.id] }
   let (r, w2) := answer w1 cc.addr cmd
   (r, { s with w := w2 })
 
@@ -334,7 +339,7 @@ def cacheAskItems (id : Nat) : List Item :=
   [.other "optin", .asking, .other "multi", .other "pttl", .cmd id, .other "exec"]
 
 def sendAskingCache (s : St) (cc : Conn) (cmd : Cmd) : Reply × St :=
-  let w1 := logCall s.w { addr := cc.addr, kind := .multi, items := cacheAskItems cmd.id }
+  let w1 := logCall s.w { conn := cc, kind := .multi, items := cacheAskItems cmd.id }
   let (r, w2) := answer w1 cc.addr cmd
   (r, { s with w := w2 })
 
@@ -380,3 +385,57 @@ def doCmd (o : Opt) (topo : Msg) (ro : Nat → Nat → Nat) (cache : Bool) (cmd 
       else .ok (resp, s2)
 
 end Rv.ClusterRoute
+
+/-! ## single-flight `call` of /repo/singleflight.go
+
+Interleaving model at the granularity of the mutex-protected sections: `enter` is the locked
+prefix of `Do` (a caller either becomes the leader, which will run `fn`, or a waiter on the
+leader's channel), `delayEnter` the locked prefix of `DelayDo`, `finish` the locked suffix of
+`do` followed by `close(ch)` (all waiters of that flight return). -/
+namespace Rv.ClusterRoute.SF
+
+structure S where
+  /-- `c.ch != nil`: a flight is in progress -/
+  inflight : Bool := false
+  /-- `c.cn` -/
+  cn : Nat := 0
+  /-- callers blocked on the current flight's channel -/
+  waiting : List Nat := []
+  /-- how many times `fn` was started / completed -/
+  started : Nat := 0
+  finished : Nat := 0
+  /-- callers that have returned, with the flight (number of its `fn` run) whose completion released them -/
+  returned : List (Nat × Nat) := []
+  deriving Repr
+
+inductive Ev where
+  | enter (caller : Nat)        -- `Do`
+  | delayEnter                  -- `DelayDo`
+  | finish (leader : Option Nat) -- `fn` returned; `leader` is the `Do` caller that ran it (none for DelayDo's goroutine)
+  deriving Repr
+
+/-- `Do` up to the point where it either waits or starts `fn`; answers whether the caller is the leader -/
+def enter (s : S) (caller : Nat) : S × Bool :=
+  if s.inflight then ({ s with cn := s.cn + 1, waiting := s.waiting ++ [caller] }, false)
+  else ({ s with cn := s.cn + 1, inflight := true, started := s.started + 1 }, true)
+
+/-- `DelayDo`: nothing when a flight is in progress -/
+def delayEnter (s : S) : S × Bool :=
+  if s.inflight then (s, false)
+  else ({ s with cn := s.cn + 1, inflight := true, started := s.started + 1 }, true)
+
+/-- end of `do`: only enabled while a flight is in progress -/
+def finish (s : S) (leader : Option Nat) : S :=
+  if s.inflight then
+    { s with inflight := false, cn := 0, finished := s.finished + 1, waiting := [],
+             returned := s.returned ++ (s.waiting ++ leader.toList).map fun c => (c, s.started) }
+  else s
+
+def step (s : S) : Ev → S
+  | .enter c => (enter s c).1
+  | .delayEnter => (delayEnter s).1
+  | .finish l => finish s l
+
+def run (s : S) (es : List Ev) : S := es.foldl step s
+
+end Rv.ClusterRoute.SF
